@@ -106,6 +106,10 @@ def r1_step_shape(repo: Repo, rep):
         pcalls = [c for e in p.events if e.value is not None for c in ast.walk(e.value)
                   if isinstance(c, ast.Call) and isinstance(c.func, ast.Name) and c.func.id == var]
         if not pcalls:
+            if var in p.loopvars:
+                skip = [dump(g)[:60] + ("" if pol else " is false") for g, pol, k in p.guards if k == "if"]
+                rep.violation(R, fi.site(loop), fi.fq, "every condition is evaluated in every step (samplers, data iterators and logging advance with it)",
+                              f"a pass through the loop body evaluates no condition (when {skip})", "condition skipped on a path")
             continue
         c0 = pcalls[0]
         itarg = kwarg(c0, "iteration", 1)
